@@ -205,8 +205,11 @@ def handmade_memo(ctx, rule, want_file):
 
 def attribute_memos(ctx, rule, want_file):
     """Third form of memoisation (besides cachetools decorators and closures): a method keeps its last result on the instance,
-        key = <f(params)>;  if key != self._k: self._k = key; self._v = <g(params)>;  return self._v
-    The remembered value is served whenever the key repeats, so every parameter g reads must be readable from the key expression."""
+        if <test mentioning self._k>:  self._k = <key(params)>;  self._v = <g(params)>
+        ... self._v ...
+    (the test being `key != self._k`, `self._k is None or not np.array_equal(key, self._k)`, ...).  The remembered value is served whenever
+    the key repeats, so every parameter - at the granularity of `param.attr` access paths (sol_i.t vs sol_i.q) - that g reads must be
+    readable from the key expression."""
     rep = ctx.rep
     n_fn = n_memo = 0
     for rel, mod in sorted(ctx.repo.modules.items()):
@@ -221,6 +224,10 @@ def attribute_memos(ctx, rule, want_file):
             for w in ast.walk(fn):
                 if isinstance(w, ast.Assign) and len(w.targets) == 1 and isinstance(w.targets[0], ast.Name):
                     binds.setdefault(w.targets[0].id, []).append(w.value)
+            par = {}
+            for p_ in ast.walk(fn):
+                for c_ in ast.iter_child_nodes(p_):
+                    par[id(c_)] = p_
 
             def reads(e, seen=None):
                 seen = seen if seen is not None else set()
@@ -228,45 +235,47 @@ def attribute_memos(ctx, rule, want_file):
                 for x in ast.walk(e):
                     if isinstance(x, ast.Name):
                         if x.id in params:
-                            out.add(x.id)
+                            pa = par.get(id(x))
+                            gp = par.get(id(pa)) if pa is not None else None
+                            is_method = isinstance(gp, ast.Call) and gp.func is pa       # p.tobytes(): reads all of p
+                            out.add(f"{x.id}.{pa.attr}" if isinstance(pa, ast.Attribute) and pa.value is x and not is_method else x.id)
                         elif x.id in binds and x.id not in seen:
                             seen.add(x.id)
                             for v in binds[x.id]:
                                 out |= reads(v, seen)
                 return out
+
+            def covered(need, have):
+                return need in have or need.split(".")[0] in have or ("." not in need and False)
             for iff in [w for w in ast.walk(fn) if isinstance(w, ast.If)]:
-                t = iff.test
-                if not (isinstance(t, ast.Compare) and len(t.ops) == 1 and isinstance(t.ops[0], (ast.NotEq, ast.IsNot, ast.Eq, ast.Is))):
+                tested = {x.attr for x in ast.walk(iff.test) if isinstance(x, ast.Attribute) and dotted(x.value) == "self"}
+                if not tested:
                     continue
-                sides = [t.left, t.comparators[0]]
-                attr = [x for x in sides if isinstance(x, ast.Attribute) and dotted(x.value) == "self"]
-                other = [x for x in sides if x not in attr]
-                if len(attr) != 1 or len(other) != 1:
-                    continue
-                branch = iff.body if isinstance(t.ops[0], (ast.NotEq, ast.IsNot)) else iff.orelse
-                stores = {}
-                for st in branch:
-                    for w in ast.walk(st):
-                        if isinstance(w, ast.Assign) and len(w.targets) == 1 and isinstance(w.targets[0], ast.Attribute) and dotted(w.targets[0].value) == "self":
-                            stores[w.targets[0].attr] = w.value
-                if attr[0].attr not in stores:
-                    continue            # the compared attribute is not refreshed here: not a memo
-                vals = {a: v for a, v in stores.items() if a != attr[0].attr}
-                returned = {w.value.attr for w in ast.walk(fn) if isinstance(w, ast.Return) and isinstance(w.value, ast.Attribute) and dotted(w.value.value) == "self"}
-                returned |= {x.attr for w in ast.walk(fn) if isinstance(w, ast.Assign) and isinstance(w.value, ast.Attribute) and dotted(w.value.value) == "self" for x in [w.value]}
-                vals = {a: v for a, v in vals.items() if a in returned}
-                if not vals:
-                    continue
-                n_memo += 1
-                C = f"{rel}:{q}"
-                kreads = reads(other[0])
-                for a, v in vals.items():
-                    miss = sorted(reads(v) - kreads)
-                    if miss:
-                        rep.bad(rule, C, iff, f"`{fn.name}` keeps its last result in self.{a} and recomputes it only when `{norm_src(t)[:60]}`; the key is built from {sorted(kreads)} but the remembered "
-                                f"value also depends on {miss}: a call that repeats the key with another `{miss[0]}` is served the value of the earlier call", f"{rel}:{iff.lineno}")
-                    else:
-                        rep.ok(rule, C, f"instance-attribute memo self.{a}: every parameter the value reads is part of the key")
+                for branch in (iff.body, iff.orelse):
+                    stores = {}
+                    for st in branch:
+                        for w in ast.walk(st):
+                            if isinstance(w, ast.Assign) and len(w.targets) == 1 and isinstance(w.targets[0], ast.Attribute) and dotted(w.targets[0].value) == "self":
+                                stores[w.targets[0].attr] = w.value
+                    keys = [k for k in stores if k in tested]
+                    if not keys:
+                        continue
+                    used_later = {x.attr for w in ast.walk(fn) for x in ast.walk(w) if isinstance(x, ast.Attribute) and dotted(x.value) == "self" and isinstance(x.ctx, ast.Load)}
+                    vals = {a: v for a, v in stores.items() if a not in keys and a in used_later}
+                    if not vals:
+                        continue
+                    n_memo += 1
+                    C = f"{rel}:{q}"
+                    kreads = set()
+                    for k in keys:
+                        kreads |= reads(stores[k])
+                    for a, v in sorted(vals.items()):
+                        miss = sorted(r for r in reads(v) if not covered(r, kreads))
+                        if miss:
+                            rep.bad(rule, C, iff, f"`{fn.name}` keeps its last result in self.{a} and recomputes it only when `{norm_src(iff.test)[:70]}`; the key is built from {sorted(kreads)} but "
+                                    f"the remembered value also depends on {miss}: a call that repeats the key with another `{miss[0]}` is served the value of the earlier call", f"{rel}:{iff.lineno}")
+                        else:
+                            rep.ok(rule, C, f"instance-attribute memo self.{a}: every input the value reads is part of the key")
     rep.ok(rule, "cardillo", f"{n_fn} functions scanned for instance-attribute memos ({n_memo} found)", trivial=True)
     return n_memo
 
@@ -683,4 +692,12 @@ MUTANTS += [
 ]
 NEUTRAL += [
     dict(id="c26-n-r7", canary=True, what="RigidBody.A_IB alone keyed by the normalised quaternion (the rotation matrix has scaling degree 0)", file='cardillo/discrete/rigid_body.py', old='    @cachedmethod(\n        lambda self: self.A_IB_cache,\n        key=lambda self, t, q, xi=None: hashkey(t, *q),\n    )\n    def A_IB(self, t, q, xi=None):', new='    def _orientation_key(self, t, q, xi=None):\n        p = q[3:]\n        return hashkey(*(p / norm(p)))\n\n    @cachedmethod(lambda self: self.A_IB_cache, key=_orientation_key)\n    def A_IB(self, t, q, xi=None):'),
+]
+
+MUTANTS += [
+    dict(id="c26-r6-view", canary=True, what="[seeded by sub-agent] memoised RigidBody.v_P gets a centre-of-mass fast path returning the view u[:3] of its argument", file='cardillo/discrete/rigid_body.py',
+         old='    def v_P(self, t, q, u, xi=None, B_r_CP=np.zeros(3, dtype=float)):\n        return u[:3] + self.A_IB(t, q) @ cross3(u[3:], B_r_CP)\n', new='    def v_P(self, t, q, u, xi=None, B_r_CP=np.zeros(3, dtype=float)):\n        if not np.any(B_r_CP):\n            return u[:3]\n        return u[:3] + self.A_IB(t, q) @ cross3(u[3:], B_r_CP)\n', expect="C26.R6"),
+]
+NEUTRAL += [
+    dict(id="c26-n-r6v", canary=True, what="memoised RigidBody.v_P gets a centre-of-mass fast path returning a copy", file='cardillo/discrete/rigid_body.py', old='    def v_P(self, t, q, u, xi=None, B_r_CP=np.zeros(3, dtype=float)):\n        return u[:3] + self.A_IB(t, q) @ cross3(u[3:], B_r_CP)\n', new='    def v_P(self, t, q, u, xi=None, B_r_CP=np.zeros(3, dtype=float)):\n        if not np.any(B_r_CP):\n            return u[:3].copy()\n        return u[:3] + self.A_IB(t, q) @ cross3(u[3:], B_r_CP)\n'),
 ]
